@@ -116,6 +116,22 @@ def get_stack_frame_unit(ctx):
     cur["f"] = other
     r2 = f()
     ctx.check("depends-only-on-the-current-frame-chain(no-memoisation-across-calls)", bool(flatten(r2) == expect(other.f_back.f_back)), info=f"{flatten(r2)}")
+    # the SAME live frame objects later in their execution (a builder function that creates calls on several of its lines, a helper invoked from
+    # two lines of one caller): frames are mutable, their f_lineno advances - the result must show the lines the frames are at NOW
+    first = other.f_back.f_back
+    fr = first.f_back
+    while fr is not None:           # only the enclosing frames have moved on
+        fr.f_lineno += 7
+        fr = fr.f_back
+    r3 = f()
+    ctx.check("same-live-frames,enclosing-frames-advanced-to-other-lines:the-result-shows-the-current-lines(no-reuse-keyed-by-frame-identity)",
+              bool(flatten(r3) == expect(first)), info=f"{flatten(r3)} vs {expect(first)}")
+    fr = first
+    while fr is not None:           # every frame has moved on
+        fr.f_lineno += 11
+        fr = fr.f_back
+    r4 = f()
+    ctx.check("same-live-frames,every-frame-advanced:the-result-shows-the-current-lines", bool(flatten(r4) == expect(first)), info=f"{flatten(r4)} vs {expect(first)}")
     return "ok"
 
 
